@@ -122,6 +122,10 @@ func lockOp(c *ssa.CallCommon) (lockKey, string, bool) {
 	return lockKey{ownerName(fa.X.Type()), st.Field(fa.Field).Name()}, op, true
 }
 
+// syncHigherOrderPkgs: standard-library packages whose exported functions call a function argument
+// synchronously, before returning, on the calling goroutine.
+var syncHigherOrderPkgs = map[string]bool{"sort": true, "slices": true, "strings": true, "bytes": true, "sync": true, "maps": true}
+
 func (a *A) Locks() *Locks {
 	if a.locks != nil {
 		return a.locks
@@ -148,6 +152,38 @@ func (a *A) Locks() *Locks {
 				}
 			}
 		}
+	}
+	// A function literal handed directly to a synchronous standard-library higher-order function
+	// (sort.Search, sort.Slice, slices.SortFunc, strings.Map, (*sync.Once).Do, (*sync.Map).Range, ...)
+	// runs inside that call: it inherits the lockset of the call site.
+	for _, f := range a.ModFuncs {
+		allInstrs(f, func(in ssa.Instruction) {
+			cc := callCommon(in)
+			if cc == nil {
+				return
+			}
+			if _, isGo := in.(*ssa.Go); isGo {
+				return
+			}
+			if _, isDefer := in.(*ssa.Defer); isDefer {
+				return
+			}
+			callee := cc.StaticCallee()
+			if callee == nil || callee.Pkg == nil || inMod[callee] || !syncHigherOrderPkgs[callee.Pkg.Pkg.Path()] {
+				return
+			}
+			for _, arg := range cc.Args {
+				mc, ok := arg.(*ssa.MakeClosure)
+				if !ok {
+					continue
+				}
+				af, ok := mc.Fn.(*ssa.Function)
+				if !ok || !inMod[af] || cg.Nodes[f] == nil || cg.Nodes[af] == nil {
+					continue
+				}
+				L.inEdges[af] = append(L.inEdges[af], &callgraph.Edge{Caller: cg.Nodes[f], Site: in.(ssa.CallInstruction), Callee: cg.Nodes[af]})
+			}
+		})
 	}
 	// roots of lock inference: functions without module callers, and go-entries (empty lockset)
 	for _, f := range a.ModFuncs {
@@ -487,6 +523,9 @@ func isFreshObject(fa *ssa.FieldAddr) bool {
 // GuardSpec: which lock guards a field (or why it needs none).
 type GuardSpec struct {
 	Lock   string // mutex field name in the same struct; "" = no guard needed
+	// LockOwner: qualified type that owns the mutex when it is not the struct itself (state owned by a
+	// parent object and guarded by the parent's lock)
+	LockOwner string
 	Reason string // for Lock=="": why
 	// ReadsUnguardedOK: reads without the lock are tolerated with this reason
 	ReadsUnguardedOK string
@@ -515,6 +554,9 @@ func (a *A) ruleGuardedBy(S *types.Named, table map[string]GuardSpec, exemptFns 
 			continue
 		}
 		key := lockKey{owner, spec.Lock}
+		if spec.LockOwner != "" {
+			key = lockKey{spec.LockOwner, spec.Lock}
+		}
 		for _, ac := range acc {
 			if !reach[ac.Fn] {
 				continue
